@@ -108,6 +108,11 @@ def cases(tier, seed):
     for i, c in enumerate(tb_base):
         for simk in ('sim', 'fast', 'compiled'):
             out.append(dict(c, k='testbench', K=2, add_reset=RESETS[i % 3], sim=simk, init=['zero', 'ones', 'alt'][i % 3], wb=WB[(len(out)) % 3]))
+    # a non-zero default_value: registers without reset value and unlisted memory words start from it (CompiledSimulation leaves
+    # its memories at 0, the documented exception): the testbench must start from what that simulator started from
+    for c in [{'fam': 'MEM', 'aw': 2, 'bw': 4, 'nr': 1, 'nw': 1}] + [c_ for c_ in designs.seq_cases(widths=(4,)) if c_['kind'] in ('counter', 'mem_rdw', 'chain')]:
+        for simk in ('sim', 'fast', 'compiled'):
+            out.append(dict(c, k='testbench', K=2, add_reset=False, sim=simk, init='dflt', dv=1, wb='same'))
     # memories with initial contents at both ends of the address space, small and large (the emitter may treat big memories apart)
     for aw in (1, 5, 16, 17):
         for j, simk in enumerate(('sim', 'fast', 'compiled')):
@@ -260,6 +265,10 @@ def run_module(case, ob, site):
 def init_values(case, block):
     kind = case.get('init', 'zero')
     regs, mems = {}, {}
+    if kind == 'dflt':      # nothing given for the registers, one word per memory: everything else comes from default_value
+        for mid, mem in simdrv.mems_of(block).items():
+            mems[mem.name] = {0: 0}
+        return regs, mems
     for r in block.wirevector_subset(pyrtl.Register):
         m = r.bitmask
         regs[r.name] = {'zero': 0, 'ones': m, 'alt': 0xAAAAAAAAAAAAAAAAAAAAAAAA & m}[kind]
@@ -277,14 +286,14 @@ class _Trace(object):
     exc = None
 
 
-def concrete_tb_run(block, kind, K, regs0, mems0, inputs_of):
+def concrete_tb_run(block, kind, K, regs0, mems0, inputs_of, dv=0):
     """the real simulator on plain ints and plain dicts (replay): returns (tracer, trace-holder)"""
     tracked = sorted(block.wirevector_subset((pyrtl.Input, pyrtl.Output)), key=lambda w: w.name)
     tracer = pyrtl.SimulationTrace(wires_to_track=tracked, block=block)
     rmap = {r: regs0[r.name] for r in block.wirevector_subset(pyrtl.Register) if r.name in regs0}
     mmap = {m: dict(mems0[m.name]) for m in simdrv.mems_of(block).values() if m.name in mems0 and not isinstance(m, pyrtl.RomBlock)}
     cls = {'sim': pyrtl.Simulation, 'fast': pyrtl.FastSimulation, 'compiled': pyrtl.CompiledSimulation}[kind]
-    sim = cls(tracer=tracer, register_value_map=rmap, memory_value_map=mmap, block=block)
+    sim = cls(tracer=tracer, register_value_map=rmap, memory_value_map=mmap, default_value=dv, block=block)
     for t in range(K):
         sim.step({w.name: inputs_of(w, t) for w in block.wirevector_subset(pyrtl.Input)})
     r = _Trace()
@@ -298,13 +307,16 @@ def run_testbench(case, ob, site, concrete_inputs=None):
         return ob.fact('skipped-nand', True)
     ar, K, kind = case['add_reset'], case['K'], case['sim']
     regs0, mems0 = init_values(case, block)
+    dv = case.get('dv', 0)
+    mdv = 0 if kind == 'compiled' else dv       # the documented exception: CompiledSimulation's memories ignore default_value
     v = Vars()
     holder = {}
     from .. import spec
     # the no-double-write precondition is evaluated for the ACTUAL initial contents (enables may depend on memory reads)
-    spec_mems = {mem.name: SymMem.from_dict(mems0.get(mem.name, {}), 0, mem.addrwidth, mem.bitwidth)
+    spec_mems = {mem.name: SymMem.from_dict(mems0.get(mem.name, {}), mdv, mem.addrwidth, mem.bitwidth)
                  for mem in simdrv.mems_of(block).values() if not isinstance(mem, pyrtl.RomBlock)}
-    assume = [z3.Not(d) for d in spec.run(block, K, v, reg_init=regs0, mem_init=spec_mems).double_write]
+    assume = [z3.Not(d) for d in spec.run(block, K, v, reg_init=regs0 if regs0 or not dv else 'reset', mem_init=spec_mems,
+                                          default_value=dv).double_write]
 
     def after(sim, t):
         return sim.tracer           # per explored path: that path's own tracer object
@@ -314,11 +326,11 @@ def run_testbench(case, ob, site, concrete_inputs=None):
         if assume and not z3.is_true(z3.simplify(z3.substitute(z3.And(*assume), *subs))):
             return ob.fact('skipped-inputs-outside-the-precondition', True)     # two enabled writes to one address: undefined
         assume = []
-        tracer, r0 = concrete_tb_run(block, kind, K, regs0, mems0, concrete_inputs)
+        tracer, r0 = concrete_tb_run(block, kind, K, regs0, mems0, concrete_inputs, dv)
         r0.extra = [tracer]
         rs = [r0]
     elif kind == 'compiled':
-        cm = CompiledModel(block, regvals=regs0, memvals=mems0)
+        cm = CompiledModel(block, regvals=regs0, memvals=mems0, default_value=dv)
         rs = run_compiled(cm, K, v)
         if len([r for r in rs if r.exc is None]) != 1:
             return ob.fact('skipped-multi-path-trace', True)
@@ -327,10 +339,11 @@ def run_testbench(case, ob, site, concrete_inputs=None):
     else:
         # the memory_value_map entries are TrackMem objects: the simulator and the trace hold whatever object relations the
         # real code creates (a recorded initial state that aliases the live memory sees the simulation's writes)
-        meminit = {mem.name: sym.TrackMem.from_words(mems0.get(mem.name, {}), 0, mem.addrwidth, mem.bitwidth)
+        meminit = {mem.name: sym.TrackMem.from_words(mems0.get(mem.name, {}), dv, mem.addrwidth, mem.bitwidth)
                    for mem in simdrv.mems_of(block).values() if not isinstance(mem, pyrtl.RomBlock)}
         with sym_env([block]):
-            rs = run_sim(block, K, v, kind=kind, reg_init=regs0, mem_init=meminit, track='io', after_step=after, assumptions=assume)
+            rs = run_sim(block, K, v, kind=kind, reg_init=regs0 if regs0 or not dv else 'reset', mem_init=meminit, track='io',
+                         after_step=after, assumptions=assume, default_value=dv)
     rs = [r for r in rs if r.exc is None and r.extra]
     if not rs:
         return ob.fact('skipped-no-trace', True)
@@ -370,7 +383,7 @@ def _check_testbench(case, ob, site, block, r, tracer, regs0, mems0, assume, v):
     ob.fact('testbench-holds-rst-low', tb.rst0 == bool(ar), site + ':tb-rst')
     # initial register state = the state the simulation started from
     for reg in block.wirevector_subset(pyrtl.Register):
-        start = regs0.get(reg.name, reg.reset_value if reg.reset_value is not None else 0)
+        start = regs0.get(reg.name, reg.reset_value if reg.reset_value is not None else case.get('dv', 0))
         ob.fact('testbench-initialises-register:%s' % reg.name, tb.regs.get(mp[reg.name]) == start, site + ':tb-reg-init',
                 detail={'register': reg.name, 'testbench': tb.regs.get(mp[reg.name]), 'simulation started from': start})
     mems_by_v = mem_names(block)
@@ -383,7 +396,7 @@ def _check_testbench(case, ob, site, block, r, tracer, regs0, mems0, assume, v):
         bad = []
         if ok:
             for a in range(1 << m.addrwidth):
-                want = mems0.get(m.name, {}).get(a, 0)
+                want = mems0.get(m.name, {}).get(a, 0 if kind == 'compiled' else case.get('dv', 0))
                 have = words.get(a, dflt[1])
                 if want != have:
                     bad.append((a, have, want))
